@@ -132,12 +132,15 @@ int main(int argc, char** argv) {
         const char sep = names.find(';') != std::string::npos ? ';' : ',';
         for (std::string n; std::getline(ss, n, sep);) want.insert(n);
         std::vector<unsigned> sel;
+        std::set<std::string> hit;
         for (unsigned w = 0; w < 65536; ++w) {
             vrec::Rec rec;
             try { auto mm = Decode<vrec::Rec>((u16)w); mm.call(rec, (u16)w, 0); } catch (...) { continue; }
             std::string nm = rec.key.substr(0, rec.key.find('/'));
-            if (want.count(nm) || want.count(rec.key)) sel.push_back(w);
+            if (want.count(nm) || want.count(rec.key)) { sel.push_back(w); hit.insert(want.count(nm) ? nm : rec.key); if (want.count(nm) && want.count(rec.key)) hit.insert(rec.key); }
         }
+        // a name that selects nothing is a mistake in the caller's list, never silently an empty family
+        for (auto& n : want) if (!n.empty() && !hit.count(n)) { std::fprintf(stderr, "isa_rec: family name selects no instruction: %s\n", n.c_str()); return 4; }
         for (size_t i = part; i < sel.size(); i += parts) words.push_back(sel[i]);
     } else {
         if (!a.mode.empty()) std::sscanf(a.mode.c_str(), "%15[^:]:%u..%u:%u", kind, &lo, &hi, &k);
